@@ -35,6 +35,10 @@ pub struct Case {
     /// encoder that fails after writing this many bytes of the record, per append call (None = healthy)
     #[serde(default)]
     pub enc_fail: Vec<Option<usize>>,
+    /// the first characters of every message are handed over as `char` arguments (`info!("{}{}{}", 'é', '漢', rest)`):
+    /// they reach the writer one character at a time
+    #[serde(default)]
+    pub char_args: bool,
     /// the configured path is a symbolic link to the (pre-existing) file, as in `current.log -> app-2026.log`
     #[serde(default)]
     pub symlink: bool,
@@ -84,9 +88,9 @@ pub fn strategy() -> impl Strategy<Value = Case> {
         0u8..3,
         prop::collection::vec(op, 1..=25),
         prop_oneof![3 => Just(vec![]), 1 => prop::collection::vec(prop::bool::weighted(0.4), 1..=6)],
-        (prop_oneof![4 => Just(vec![]), 1 => prop::collection::vec(prop::option::weighted(0.3, prop_oneof![Just(0usize), 1usize..12, 1000usize..1100]), 1..=25)], prop::bool::weighted(0.2)),
+        (prop_oneof![4 => Just(vec![]), 1 => prop::collection::vec(prop::option::weighted(0.3, prop_oneof![Just(0usize), 1usize..12, 1000usize..1100]), 1..=25)], prop::bool::weighted(0.2), prop::bool::weighted(0.3)),
     )
-        .prop_map(|(limit, append_mode, pre, count, chunks, charset, ops, flaky, (enc_fail, symlink))| Case { limit, append_mode, symlink: symlink && pre.is_some(), pre, count, chunks, charset, flaky_after_moving: !flaky.is_empty() && ops.len() % 2 == 0, ops, flaky, enc_fail })
+        .prop_map(|(limit, append_mode, pre, count, chunks, charset, ops, flaky, (enc_fail, symlink, char_args))| Case { char_args, limit, append_mode, symlink: symlink && pre.is_some(), pre, count, chunks, charset, flaky_after_moving: !flaky.is_empty() && ops.len() % 2 == 0, ops, flaky, enc_fail })
 }
 
 pub fn check(tmp: &Path, case: &Case, obs: &mut Obs) -> CaseResult {
@@ -175,7 +179,16 @@ fn check_in(dir: &Path, case: &Case, obs: &mut Obs) -> CaseResult {
         let msg = text_of(len, case.charset);
         log.lock().unwrap().clear();
         let call = appends_done.fetch_add(1, std::sync::atomic::Ordering::SeqCst);
-        let res = catch(|| append_msg(&app, &msg));
+        let res = catch(|| {
+            let mut cs = msg.chars();
+            match (case.char_args, cs.next(), cs.next()) {
+                (true, Some(a), Some(b)) => {
+                    let rest = cs.as_str();
+                    log4rs::append::Append::append(&app, &log::Record::builder().args(format_args!("{}{}{}", a, b, rest)).level(log::Level::Info).target("t").build())
+                }
+                _ => append_msg(&app, &msg),
+            }
+        });
         obs.sub_evals += 1;
         if let Some(k) = case.enc_fail.get(call).copied().flatten() {
             // the encoder wrote a prefix and failed: the append reports it, the policy is not consulted, and the
@@ -270,6 +283,7 @@ fn check_in(dir: &Path, case: &Case, obs: &mut Obs) -> CaseResult {
     obs.class_if(case.symlink, "active-path-is-a-symlink");
     obs.class_if(flaky_hit, "scripted-roller-failure");
     obs.class_if(enc_failed, "encoder-failed-after-partial-write");
+    obs.class_if(case.char_args, "message-starts-with-char-arguments");
     obs.class_if(case.ops.iter().any(|o| matches!(o, Op::Restart)), "restart");
     obs.class(format!("rotations={}", rotations.min(5)));
     for d in deltas {
@@ -662,7 +676,7 @@ pub fn run(run: &Run) {
     if run.worker.0 == 0 {
         // one long lifetime: thousands of rotations through one appender (counters of any width must keep up)
         let ops: Vec<Op> = (0..6000).map(|i| Op::Abs(20 + (i % 7) * 5)).collect();
-        run.eval_one("size", &Case { limit: 100, append_mode: true, pre: None, count: 2, chunks: None, charset: 0, ops, flaky: vec![], enc_fail: vec![], symlink: false, flaky_after_moving: false }, &f);
+        run.eval_one("size", &Case { limit: 100, append_mode: true, pre: None, count: 2, chunks: None, charset: 0, ops, flaky: vec![], enc_fail: vec![], symlink: false, flaky_after_moving: false, char_args: false }, &f);
     }
     if run.worker.0 == 1 % run.worker.1 {
         let t = run.tmp.clone();
